@@ -79,6 +79,9 @@ def gen_case(rng):
                 e[1] + 2 <= (d["stride_in"] if sm == "IN"
                              else d["stride_out"]):
             override = "H"       # read the status word around a bit
+        elif e[0] != "bit" and rng.random() < 0.25:
+            # a single bit (by number) of a byte / word entry
+            override = ["bit", rng.choice([0, 0, 3, 7, rng.randint(0, 7)])]
         links.append(dict(term=ti, sm=sm, entry=k, ch=ch, via=via, mode=mode,
                           override=override))
     return dict(terms=terms, links=links, fseed=rng.getrandbits(32))
@@ -96,6 +99,10 @@ def build(case, ec):
             for k, (f, byte, bit) in enumerate(ents):
                 cns[f"p_{smname}{k}"] = ProcessDesc(base + k, 1)
                 cns[f"po_{smname}{k}"] = ProcessDesc(base + k, 1, "H")
+                if f != "bit":
+                    for n in range(8):
+                        cns[f"pb_{smname}{k}_{n}"] = ProcessDesc(
+                            base + k, 1, n)
                 cns[f"k_{smname}{k}"] = PacketDesc(
                     sm, byte, bit if f == "bit" else f)
         Ch = type("Ch", (Struct,), cns)
@@ -133,7 +140,8 @@ def make_device(case, ts):
         d = case["terms"][l["term"]]
         ents = d["ins"] if l["sm"] == "IN" else d["outs"]
         f = ents[l["entry"]][0]
-        fmt = l["override"] or ("B" if f == "bit" else f)
+        fmt = "B" if isinstance(l["override"], list) else (
+            l["override"] or ("B" if f == "bit" else f))
         ns[f"dv{i}"] = DeviceVar(fmt, write=l["mode"] == "write")
     ns["sv"] = TerminalVar()
 
@@ -178,6 +186,8 @@ def make_device(case, ts):
 
 
 def name_of(l):
+    if isinstance(l["override"], list):
+        return f"pb_{l['sm']}{l['entry']}_{l['override'][1]}"
     if l["override"]:
         return f"po_{l['sm']}{l['entry']}"
     if l["via"] in ("process", "struct"):
@@ -192,6 +202,8 @@ def var_range(case, l, region_start):
     f, byte, bit = ents[l["entry"]]
     stride = d["stride_in"] if l["sm"] == "IN" else d["stride_out"]
     off = region_start + byte + stride * l["ch"]
+    if isinstance(l["override"], list):
+        return off, ("bit", l["override"][1])
     if l["override"]:
         return off, "H"
     return off, (("bit", bit) if f == "bit" else f)
@@ -342,6 +354,8 @@ def check_case(case, res):
 def case_fmt(case, l):
     d = case["terms"][l["term"]]
     ents = d["ins"] if l["sm"] == "IN" else d["outs"]
+    if isinstance(l["override"], list):
+        return "bit"
     return "H" if l["override"] else ents[l["entry"]][0]
 
 
